@@ -30,7 +30,7 @@ class Ctx:
         self._rec('HOLDS', rule, instance, where, detail)
 
     # rules that are ABOUT state a change introduces (memos, caches, stale values, shared tables, deferred steps): their evidence names new storage by design
-    _STATE_RULES = ('stale', 'memo', 'cache', 'slot', 'lazy-generator', 'late-binding', 'discarded', 'shared', 'state', 'aliased', 'cursor', 'clock', 'set|', 'C18.', 'one-shot')
+    _STATE_RULES = ('stale', 'memo', 'cache', 'slot', 'lazy-generator', 'late-binding', 'discarded', 'shared', 'state', 'aliased', 'cursor', '|clock', 'C18.', 'one-shot')
 
     def violation(self, rule, instance, where=None, detail=None, key=None):
         # A deviation is claimed only for code that was read.  Evidence that speaks of private storage the pinned tree did not have (self._accounts[...] where the
@@ -149,7 +149,10 @@ def run_check(pid, mod, tier, seed, root, level, explanation, trusted_base, extr
                     continue
                 seen_keys.add((o['verdict'], o['key']))
             if o['verdict'] == 'VIOLATION':
-                hit = [k for k in kf if k['key'] == o['key']]
+                # a recorded finding is identified by rule | public entry | refusing site (owning class : exception : what its guard reads); which protected write
+                # happens to come first, and how the writes are classed, varies with how the same state is stored and is not part of the identity
+                ident = lambda s_: '|'.join(str(s_).split('|')[:3]) if str(s_).count('|') >= 4 else str(s_)
+                hit = [k for k in kf if k['key'] == o['key'] or ident(k['key']) == ident(o['key'])]
                 if hit:
                     knownhits.append((o, hit[0]))
                 else:
